@@ -134,6 +134,9 @@ namespace pika::detail {
             // suspend this thread
             ::pika::detail::unlock_guard<std::unique_lock<mutex_type>> ul(lock);
             this_ctx.suspend();
+#if defined(PIKA_VERIF)
+            PIKA_VERIF_POINT(806, this);
+#endif
         }
 
         return f.ctx_ ? pika::threads::detail::thread_restart_state::timeout :
@@ -156,6 +159,9 @@ namespace pika::detail {
             // suspend this thread
             ::pika::detail::unlock_guard<std::unique_lock<mutex_type>> ul(lock);
             this_ctx.sleep_until(abs_time.value());
+#if defined(PIKA_VERIF)
+            PIKA_VERIF_POINT(807, this);
+#endif
         }
 
         return f.ctx_ ? pika::threads::detail::thread_restart_state::timeout :
